@@ -1457,14 +1457,20 @@ class ComponentSpecification(experiment.model.interface.InternalRepresentationAt
                 pattern = re.compile(r'\b' + re.escape(original_reference) + r'\b')
                 arguments = re.sub(pattern, replacement, arguments)
 
-            blueprint_name = self.identification.componentName.rstrip('0123456789')
+            # VV: A replica is called <blueprint name><replica index>. The digits at the end of the name of a component
+            #     which is not a replica (e.g. "use2") are part of its name
+            unreplicated = self.workflowGraph.configuration._unreplicated
+            known_ids = unreplicated.get_component_identifiers(False, True)
+            blueprint_name = self.identification.componentName
+            while blueprint_name[-1:].isdigit() and (self.identification.stageIndex, blueprint_name) not in known_ids:
+                blueprint_name = blueprint_name[:-1]
 
             # VV: We need to fetch the executables before they were resolved. We don't want to have to resolve
             #     the executables of archived experiments before generating the memoization hashes of the components
             #     (it may even be impossible if we're computing the memoization hash of a component
             #     on a platform that does not have say, a Kubernetes backend).
             comp_id = (self.identification.stageIndex, blueprint_name)
-            comp_flowir = self.workflowGraph.configuration._unreplicated.get_component_configuration(
+            comp_flowir = unreplicated.get_component_configuration(
                 comp_id=comp_id, raw=False, include_default=True, is_primitive=True, ignore_convert_errors=True,
                 inject_missing_fields=True)
 
